@@ -288,9 +288,11 @@ def replay(ob):
     from props import table_replay as tr
     w = ob.witness or {}
     if "sg" in w and "letter" in w:
-        return tr.replay_wyckoff_params(w["sg"], w["letter"])
-    # generic: a few groups with special positions
-    for sg, L in ((98, "e"), (178, "b"), (75, "c"), (221, "e"), (194, "f")):
+        r = tr.replay_wyckoff_params(w["sg"], w["letter"])
+        if r.get("reproduced"):
+            return r
+    # generic: a few groups with special positions, and positions whose representative carries a constant offset
+    for sg, L in ((98, "e"), (178, "b"), (75, "c"), (221, "e"), (194, "f")) + tuple(tr.offset_positions()):
         r = tr.replay_wyckoff_params(sg, L)
         if r.get("reproduced"):
             return r
